@@ -63,6 +63,29 @@ fn check_tables(rep: &mut Rep, cfg: &Cfg, tab: &[(i64, i64)]) {
             if iers.len() != tab.len() || !iers.iter().zip(tab.iter()).all(|(a, b)| ls_eq(a, b.0, b.1, true)) {
                 rep.fail("table/builtin-differs-from-iers", None, || format!("IERS-flagged entries of the built-in table: {:?} ; want {:?}", iers, tab));
             }
+            // the iterator's adaptors after k forward steps see exactly the entries that are left (front / back mixing is
+            // left open: the implementation shares one cursor)
+            for k in [0usize, 1, 2, 14, fwd.len() / 2, fwd.len() - 1, fwd.len()] {
+                let r = guard(|| {
+                    let mk_it = || {
+                        let mut it = LatestLeapSeconds::default();
+                        for _ in 0..k {
+                            let _ = it.next();
+                        }
+                        it
+                    };
+                    (mk_it().last(), mk_it().count(), mk_it().nth(1), mk_it().skip(2).next(), mk_it().collect::<Vec<_>>(), LatestLeapSeconds::default().skip(k).last(), LatestLeapSeconds::default().step_by(k.max(1)).count())
+                });
+                match r {
+                    Err(p) => rep.fail(&format!("table/panic/{}", p.class()), None, || format!("LatestLeapSeconds adaptors after {k} steps panicked: {}", p.msg)),
+                    Ok((last, count, nth1, skip2, rest, skiplast, stepcount)) => {
+                        let left = &fwd[k.min(fwd.len())..];
+                        if last != left.last().copied() || count != left.len() || nth1 != left.get(1).copied() || skip2 != left.get(2).copied() || rest != left || skiplast != left.last().copied() || stepcount != (fwd.len() + k.max(1) - 1) / k.max(1) {
+                            rep.fail("table/adaptor-after-partial-iteration", None, || format!("after {k} next() calls: last {:?} count {} nth(1) {:?} skip(2) {:?} collect {} items skip({k}).last {:?}; {} entries are left, the last is {:?}", last, count, nth1, skip2, rest.len(), skiplast, left.len(), left.last()));
+                        }
+                    }
+                }
+            }
             for w in fwd.windows(2) {
                 if !(w[0].timestamp_tai_s < w[1].timestamp_tai_s) {
                     rep.fail("table/not-sorted", None, || format!("{:?} then {:?}", w[0], w[1]));
@@ -100,6 +123,19 @@ fn check_file(rep: &mut Rep, path: &std::path::Path, want: &[(i64, i64)], class:
             let idx: Vec<LeapSecond> = (0..fwd.len()).map(|i| f[i]).collect();
             if fwd != rev || fwd != idx {
                 rep.fail("file/iteration-orders-disagree", None, || format!("{}", path.display()));
+            }
+            for k in [0usize, 1, fwd.len() / 2, fwd.len()] {
+                let mk_it = || {
+                    let mut it = f.clone();
+                    for _ in 0..k {
+                        let _ = it.next();
+                    }
+                    it
+                };
+                let left = &fwd[k.min(fwd.len())..];
+                if mk_it().last() != left.last().copied() || mk_it().count() != left.len() || mk_it().nth(1) != left.get(1).copied() {
+                    rep.fail("file/adaptor-after-partial-iteration", None, || format!("{} after {k} next() calls", path.display()));
+                }
             }
             if fwd.len() != want.len() || !fwd.iter().zip(want.iter()).all(|(a, b)| ls_eq(a, b.0, b.1, true)) {
                 rep.fail("file/entries", None, || format!("from_path({}) yields {:?} ; want {:?}", path.display(), fwd, want));
@@ -209,6 +245,15 @@ pub fn check_utc(rep: &mut Rep, w: &World, u: i128, file: Option<&LeapSecondsFil
                 if u >= w.leap[0].0 as i128 * NS_S + 60 * NS_S {
                     if sofa != a {
                         rep.fail("accessor/sofa-flag-changes-post-1972", None, || format!("UTC {}: leap_seconds(false) {:?} vs leap_seconds(true) {:?}", u, sofa, a));
+                    }
+                }
+                // the same instant held in other uniform scales: the offset in force is a property of the instant
+                for hs in [TimeScale::TT, TimeScale::GPST, TimeScale::BDT, TimeScale::GST, TimeScale::QZSST] {
+                    let eh = ep(t - zero_tai_ns(hs), hs);
+                    if let Ok((x, xi)) = guard(|| (eh.leap_seconds(true), eh.leap_seconds_iers())) {
+                        if x != b || xi != bi {
+                            rep.fail("accessor/depends-on-holder-scale", None, || format!("TAI instant {} held in {:?}: leap_seconds {:?} / {} but held in TAI {:?} / {}", t, hs, x, xi, b, bi));
+                        }
                     }
                 }
                 if let Some((f1, f2)) = fa {
